@@ -351,6 +351,133 @@ def parse_c_template(txt):
     return ESig('other:unparsed', note=t)
 
 
+FMT_CONV = re.compile(r'%[-#0 +]*[0-9*]*(?:\.[0-9*]+)?(?:hh|h|ll|l|L|z|j|t)?[a-zA-Z]')
+
+
+class Renderer:
+    """renders what a mir2c case prints for one opcode: fprintf literals with their %s arguments resolved, operands as $k"""
+
+    def __init__(self, tu, preds):
+        self.tu, self.preds = tu, preds
+
+    def arg_text(self, a, env, binds):
+        a = F.strip(a)
+        if a['k'] == 'StringLiteral':
+            return a['s']
+        if a['k'] == 'ConditionalOperator':
+            c = self.preds.eval(a['c'][0], env, frozenset())
+            if c is None:
+                return '<?>'
+            return self.arg_text(a['c'][1] if c else a['c'][2], env, binds)
+        if a['k'] == 'DeclRefExpr' and a['n'] in binds:
+            return binds[a['n']] if binds[a['n']] is not None else ''
+        v = self.preds.eval(a, env, frozenset())
+        if v is not None:
+            return str(v)
+        return '<?>'
+
+    def render(self, f, stmt, env, binds, depth=0):
+        if stmt is None:
+            return ''
+        k = stmt['k']
+        if k == 'CompoundStmt':
+            out = ''
+            for x in F.kids(stmt):
+                out += self.render(f, x, env, binds, depth)
+                if x['k'] in ('BreakStmt', 'ReturnStmt'):
+                    break
+            return out
+        if k in ('CaseStmt', 'DefaultStmt', 'LabelStmt'):
+            ks = F.kids(stmt)
+            return self.render(f, ks[0], env, binds, depth) if ks else ''
+        if k == 'IfStmt':
+            e2 = dict(env)
+            for n_, v_ in binds.items():
+                e2[n_] = 0 if v_ is None else 1
+            c = self.preds.eval(stmt['c'][0], e2, frozenset())
+            if c is None:
+                return '<if?>'
+            return self.render(f, stmt['c'][1] if c else stmt['c'][2], env, binds, depth)
+        if k in ('ForStmt', 'WhileStmt', 'DoStmt'):
+            return '<loop>'
+        if k in ('BreakStmt', 'ReturnStmt', 'NullStmt', 'DeclStmt'):
+            return ''
+        if k in F.CASTS:
+            return self.render(f, stmt['c'][0], env, binds, depth)
+        if k == 'CallExpr':
+            c = stmt.get('callee')
+            args = F.call_args(stmt)
+            if c == 'fprintf' and len(args) >= 2:
+                fmt = F.strip(args[1])
+                if fmt['k'] == 'ConditionalOperator':
+                    cv = self.preds.eval(fmt['c'][0], env, frozenset())
+                    if cv is None:
+                        return '<?>'
+                    fmt = F.strip(fmt['c'][1] if cv else fmt['c'][2])
+                if fmt['k'] != 'StringLiteral':
+                    return '<?>'
+                out, pos, ai = '', 0, 2
+                for m in FMT_CONV.finditer(fmt['s']):
+                    out += fmt['s'][pos:m.start()]
+                    pos = m.end()
+                    if m.group(0) == '%%':
+                        out += '%'
+                        continue
+                    out += self.arg_text(args[ai], env, binds) if ai < len(args) else '<?>'
+                    ai += 1
+                out += fmt['s'][pos:]
+                return out
+            if c in ('out_op', 'out_jmp'):
+                a = F.strip(args[-1])
+                kk = F.const_value(a['c'][1]) if a['k'] == 'ArraySubscriptExpr' else None
+                if c == 'out_op':
+                    return '$%s' % kk
+                return 'goto $%s;\n' % kk
+            if c and c.startswith('out_') and c in self.tu.funcs and depth < 3:
+                g = self.tu.funcs[c]
+                nb = {}
+                for prm, a in zip(g.params, args):
+                    a = F.strip(a)
+                    if a['k'] == 'StringLiteral':
+                        nb[prm['n']] = a['s']
+                    elif a['k'] == 'ConditionalOperator':
+                        nb[prm['n']] = self.arg_text(a, env, binds)
+                    elif F.const_value(a) == 0 and self.tu.types[prm['t']].kind == 'ptr':
+                        nb[prm['n']] = None
+                    elif a['k'] == 'DeclRefExpr' and a['n'] in binds:
+                        nb[prm['n']] = binds[a['n']]
+                return self.render(g, g.body, env, nb, depth + 1)
+            if is_error_like(stmt):
+                return '<error>'
+            return ''
+        return ''
+
+
+def is_error_like(n):
+    c = F.strip(n['c'][0])
+    if c['k'] == 'UnaryOperator':
+        c = F.strip(c['c'][0])
+    return c['k'] == 'CallExpr' and c.get('callee') == 'MIR_get_error_func'
+
+
+OVF_RE = re.compile(r'__overflow = __builtin_(add|sub|mul)_overflow\(\((?P<t1>[a-z0-9_ ]+)\) ?\$1, \((?P<t2>[a-z0-9_ ]+)\) ?\$2, '
+                    r'\((?P<t3>[a-z0-9_ ]+) \*\) ?&\$0\);')
+BTF_RE = re.compile(r'if \((?P<neg>!)?\((?P<t>[a-z0-9_ ]+)\) \$1\) goto \$0;')
+
+
+def parse_rendered(txt):
+    t = ' '.join(txt.split())
+    m = OVF_RE.fullmatch(t)
+    if m:
+        if not (m.group('t1') == m.group('t2') == m.group('t3')):
+            return ESig('other:mixed-casts', note=t)
+        return ESig('bin', {'add': '+', 'sub': '-', 'mul': '*'}[m.group(1)], ctype_desc(m.group('t1')), operands=(1, 2), note=t)
+    m = BTF_RE.fullmatch(t)
+    if m:
+        return ESig('btf', '!' if m.group('neg') else '', ctype_desc(m.group('t')), operands=(1,), note=t)
+    return parse_c_template(t)
+
+
 def mir2c_sigs(tu):
     f = tu.func('out_insn')
     sws = R.find_switches(f, lambda c: c.endswith('->code') or c == 'code')
@@ -358,33 +485,26 @@ def mir2c_sigs(tu):
         raise F.AnalysisBroken('switch on insn->code not found in mir2c out_insn')
     sw = max(sws, key=lambda s: len(R.switch_regions(f, s)))
     regs = R.switch_regions(f, sw)
-    helpers = {}
+    from lib import enumflow as EF
+    preds = EF.Predicates(tu)
+    rd = Renderer(tu, preds)
+    codes = dict(tu.enum('MIR_insn_code_t'))
     out = {}
     handled = set()
     for r in regs:
         names = [c[0] for c in r['cases'] if c[0]]
         handled.update(names)
-        calls = [n for n in R.region_nodes(r['stmts']) if n['k'] == 'CallExpr']
-        hc = [n for n in calls if n.get('callee', '') and n['callee'].startswith('out_') and n['callee'] not in ('out_op', 'out_jmp')]
-        first = r['stmts'][0] if r['stmts'] else None
-        if len(hc) == 1 and first is not None and F.strip(first) is hc[0]:
-            call = hc[0]
-            h = call['callee']
-            if h not in helpers:
-                helpers[h] = helper_template(tu, tu.func(h))
-            args = F.call_args(call)
-            opstr = None
-            if args:
-                a = F.strip(args[-1])
-                if a['k'] == 'StringLiteral':
-                    opstr = a['s']
-                elif F.const_value(a) == 0 or a['k'] == 'GNUNullExpr':
-                    opstr = None
-            sig = parse_c_template(template_text(helpers[h], opstr))
-            sig.node = call
-            sig.note = '%s(%s): %s' % (h, opstr, sig.note)
-            for nm in names:
-                out[nm] = sig
+        for nm in names:
+            env = {'insn->code': codes.get(nm), 'code': codes.get(nm)}
+            txt = ''
+            for st in r['stmts']:
+                txt += rd.render(f, st, env, {})
+                if st['k'] == 'BreakStmt':
+                    break
+            sig = parse_rendered(txt)
+            sig.node = r['stmts'][0] if r['stmts'] else None
+            sig.note = ' '.join(txt.split())[:120]
+            out[nm] = sig
     return f, regs, out, handled
 
 
@@ -506,6 +626,18 @@ def rf8(run, engines=('interp', 'folder', 'mir2c')):
         f, regs, sigs, handled = mir2c_sigs(m2c)
         run.functions_analysed.add(('mir2c', f.name))
         table['mir2c'] = (f, sigs, True)
+    BTF = {'MIR_BT': ('', 64), 'MIR_BTS': ('', 32), 'MIR_BF': ('!', 64), 'MIR_BFS': ('!', 32)}
+    if 'mir2c' in table:
+        f, sigs, _ = table['mir2c']
+        for c, (neg, w) in BTF.items():
+            sig = sigs.get(c)
+            if sig is None:
+                continue
+            ok = sig.kind == 'btf' and sig.op == neg and sig.ty is not None and sig.ty[1] == w
+            run.ob(rule, ('mir2c', c), ok, {'opcode': c, 'engine': 'mir2c', 'template': sig.note, 'expected': 'if (%s(int%d_t) $1) goto $0' % (neg, w)})
+            if not ok:
+                run.violation(rule, f, 'mir2c handler of %s' % c, 'mir2c emits [%s] for %s; the opcode tests a %d-bit value for %s'
+                              % (sig.note, c, w, 'zero' if neg else 'non-zero'), line=sig.node['l'] if sig.node else f.line)
     for c in codes:
         sp = specs[c]
         if sp is None or sp.kind not in RF8_KINDS:
@@ -518,8 +650,6 @@ def rf8(run, engines=('interp', 'folder', 'mir2c')):
                 # folder handles a subset; mir2c coverage is RF7h
                 continue
             sig = sigs[c]
-            if sp.kind == 'overflow' and eng == 'mir2c':
-                continue
             why = check_against_spec(sp, sig, fpo, branch_as_value=(eng == 'folder'))
             if why is not None and (sig is None or sig.kind.startswith('other')):
                 run.ob(rule, (eng, c), False)
